@@ -1,5 +1,6 @@
 import Grexv.Model.RegExp
 import Grexv.Lemmas.Sort
+import Grexv.Lemmas.EndToEnd
 
 /-!
 # C13 — repetition thresholds are honoured; braces appear only on request (S4 level)
@@ -176,5 +177,111 @@ theorem clusters_plain_without_rep (cfg : Config) (env : Env) (ws : List Str) (h
 /-! non-vacuity: `aaa` with thresholds (1,1) becomes `a{3}`, with minimum repetitions 3 it stays literal -/
 example : (convertRepetitions {} (List.replicate 3 (Grapheme.ofStr [97]))).map Grapheme.max = [3] := by decide
 example : (convertRepetitions { minRep := 3 } (List.replicate 3 (Grapheme.ofStr [97]))).map Grapheme.max = [1, 1, 1] := by decide
+
+/-! ## no counted quantifier in the pattern the regex crate reads -/
+
+mutual
+/-- the only repetition operator in the pattern is `?` -/
+def Pat.OnlyOpt : Spec.Pat → Prop
+  | .rep p mn mx g => mn = 0 ∧ mx = some 1 ∧ Pat.OnlyOpt p
+  | .cat a b | .alt a b => Pat.OnlyOpt a ∧ Pat.OnlyOpt b
+  | .grp _ p => Pat.OnlyOpt p
+  | _ => True
+end
+
+theorem onlyOpt_catList (ps : List Spec.Pat) (h : ∀ p ∈ ps, Pat.OnlyOpt p) : Pat.OnlyOpt (Spec.catList ps) := by
+  induction ps with
+  | nil => trivial
+  | cons p ps ih =>
+    cases ps with
+    | nil => exact h p List.mem_cons_self
+    | cons q qs => exact ⟨h p List.mem_cons_self, ih (fun x hx => h x (List.mem_cons_of_mem _ hx))⟩
+
+theorem onlyOpt_altList (ps : List Spec.Pat) (h : ∀ p ∈ ps, Pat.OnlyOpt p) : Pat.OnlyOpt (Spec.altList ps) := by
+  induction ps with
+  | nil => trivial
+  | cons p ps ih =>
+    cases ps with
+    | nil => exact h p List.mem_cons_self
+    | cons q qs => exact ⟨h p List.mem_cons_self, ih (fun x hx => h x (List.mem_cons_of_mem _ hx))⟩
+
+theorem onlyOpt_subOf (cap esc : Bool) (outer : Nat) (e : Expr) (its : List Spec.Pat) (bd : Spec.Pat)
+    (h1 : ∀ p ∈ its, Pat.OnlyOpt p) (h2 : Pat.OnlyOpt bd) : ∀ p ∈ subOf cap esc outer e its bd, Pat.OnlyOpt p := by
+  unfold subOf
+  split
+  · intro p hp; simp only [List.mem_singleton] at hp; subst hp; exact h2
+  · exact h1
+
+theorem onlyOpt_optOf (l : List Spec.Pat) (h : ∀ p ∈ l, Pat.OnlyOpt p) : ∀ p ∈ optOf l, Pat.OnlyOpt p := by
+  unfold optOf
+  split
+  · rename_i p
+    intro q hq
+    simp only [List.mem_singleton] at hq
+    subst hq
+    exact ⟨rfl, rfl, h p (by simp)⟩
+  · exact h
+
+mutual
+theorem both_onlyOpt (cap esc : Bool) : ∀ (e : Expr), (∀ p ∈ (e.both cap esc).1, Pat.OnlyOpt p) ∧ Pat.OnlyOpt (e.both cap esc).2
+  | .lit c => by
+    have h : ∀ p ∈ (atomsOf c).map atomPat, Pat.OnlyOpt p := by
+      intro p hp; obtain ⟨x, _, rfl⟩ := List.mem_map.mp hp; cases x <;> trivial
+    simp only [Expr.both]
+    exact ⟨h, onlyOpt_catList _ h⟩
+  | .cls cs => by
+    have h : ∀ p ∈ [Spec.Pat.set (classItems cs) false], Pat.OnlyOpt p := by
+      intro p hp; simp only [List.mem_singleton] at hp; subst hp; trivial
+    simp only [Expr.both]
+    exact ⟨h, onlyOpt_catList _ h⟩
+  | .cat a b => by
+    have ia := both_onlyOpt cap esc a
+    have ib := both_onlyOpt cap esc b
+    have h : ∀ p ∈ subOf cap esc 2 a (a.both cap esc).1 (a.both cap esc).2 ++ subOf cap esc 2 b (b.both cap esc).1 (b.both cap esc).2, Pat.OnlyOpt p := by
+      intro p hp
+      simp only [List.mem_append] at hp
+      rcases hp with hp | hp
+      · exact onlyOpt_subOf cap esc 2 a _ _ ia.1 ia.2 p hp
+      · exact onlyOpt_subOf cap esc 2 b _ _ ib.1 ib.2 p hp
+    simp only [Expr.both]
+    exact ⟨h, onlyOpt_catList _ h⟩
+  | .rep e q => by
+    have ie := both_onlyOpt cap esc e
+    have h := onlyOpt_optOf _ (onlyOpt_subOf cap esc 3 e _ _ ie.1 ie.2)
+    simp only [Expr.both]
+    exact ⟨h, onlyOpt_catList _ h⟩
+  | .alt os => by
+    simp only [Expr.both]
+    exact ⟨by simp, onlyOpt_altList _ (bothL_onlyOpt cap esc os)⟩
+theorem bothL_onlyOpt (cap esc : Bool) : ∀ (os : List Expr), ∀ p ∈ Expr.bothL cap esc os, Pat.OnlyOpt p
+  | [] => by simp [Expr.bothL]
+  | o :: os => by
+    intro p hp
+    simp only [Expr.bothL, List.mem_cons] at hp
+    rcases hp with rfl | hp
+    · exact onlyOpt_catList _ (both_onlyOpt cap esc o).1
+    · exact bothL_onlyOpt cap esc os p hp
+end
+
+/-- **C13 (no `{n}` / `{m,n}` without `-r`, at the level of the pattern the regex crate builds)** for every well-formed
+expression, printed with any anchors, with or without capturing groups and `-e`: the parsed pattern contains no
+repetition operator other than `?` — the braces of `\u{…}` escapes and escaped literal braces are not quantifiers -/
+theorem no_counted_quantifier (cap esc ns ne : Bool) (e : Expr) (hwf : e.WF) :
+    ∃ P, Spec.parse (fmtRegExp (cfgAnch cap esc ns ne) e) = some (⟨false, false⟩, P) ∧ Pat.OnlyOpt P := by
+  refine ⟨_, parse_printedA cap esc ns ne e hwf, ?_⟩
+  apply onlyOpt_catList
+  intro p hp
+  simp only [List.mem_append] at hp
+  rcases hp with hp | hp | hp
+  · unfold preA at hp; split at hp
+    · simp at hp
+    · simp only [List.mem_singleton] at hp; subst hp; trivial
+  · unfold topItems at hp
+    split at hp
+    · simp only [List.mem_singleton] at hp; subst hp; exact (both_onlyOpt cap esc e).2
+    · exact (both_onlyOpt cap esc e).1 p hp
+  · unfold postA at hp; split at hp
+    · simp at hp
+    · simp only [List.mem_singleton] at hp; subst hp; trivial
 
 end Grexv.Props.C13
